@@ -147,6 +147,38 @@ PFF(ev, sg, c, D, H, its, li) ==
        Lbl(~c.hooks \/ ~c.loopEn \/ nLS = n, "loopstart-hook-count") \cup
        Lbl(~c.hooks \/ c.loopEn \/ nLE = 1, "songend-hook")
 
+\* ---- C07: "disabled channels contribute no notes", judged at the synthesizer side -------------------------------------
+\* MIDI port of a track: a port-name meta event (FF 09) standing first in the track routes the whole track; distinct names
+\* get the ports 0, 1, ... in the order in which the tracks deliver them at tick 0; a track without one plays on port 0.
+\* The synthesizer channel of a file channel c of that track is 16 * port + c; opn2_setChannelEnabled addresses 0..15, so
+\* only notes of port 0 can be masked.
+PortNameOf(trk) == IF Len(trk.ev) >= 1 /\ trk.ev[1][1] = 0 /\ trk.ev[1][2].k = "text" /\ trk.ev[1][2].ty = 9 THEN trk.ev[1][2].b ELSE <<>>
+\* (a name is numbered when it is DELIVERED: the port-name events of switched-off / non-solo tracks never are; the track
+\*  options are taken as constant since the load, which holds for the generated histories)
+TrackPlays(c, ti) == (c.solo = -1 \/ c.solo = ti - 1) /\ (ti \notin DOMAIN c.enabled \/ c.enabled[ti])
+RECURSIVE DistinctNames(_, _, _, _)
+DistinctNames(tracks, c, ti, acc) ==
+  IF ti > Len(tracks) THEN acc
+  ELSE LET nm == PortNameOf(tracks[ti]) IN
+       DistinctNames(tracks, c, ti + 1, IF nm = <<>> \/ ~TrackPlays(c, ti) \/ (\E q \in DOMAIN acc : acc[q] = nm) THEN acc ELSE Append(acc, nm))
+PortOfTrack(sg, c, ti) ==
+  LET nm == PortNameOf(sg.tracks[ti])  names == DistinctNames(sg.tracks, c, 1, <<>>) IN
+  IF nm = <<>> \/ ~TrackPlays(c, ti) THEN 0 ELSE (CHOOSE q \in DOMAIN names : names[q] = nm) - 1
+\* the generated songs give track k (0-based) the file channels k and k + 10
+PortOfFileChannel(sg, c, ch) == LET ti == TrkOfCh(ch) + 1 IN IF ti \in DOMAIN sg.tracks THEN PortOfTrack(sg, c, ti) ELSE 0
+\* the synth-side response to entry j of a call's log: the tap entries up to the next delivered event / hook call
+RECURSIVE RespKeyed(_, _)
+RespKeyed(L, j) == IF j > Len(L) \/ L[j][1] \in {"e", "h"} THEN FALSE
+                   ELSE IF L[j][1] = "k" /\ L[j][3] = 1 THEN TRUE ELSE RespKeyed(L, j + 1)
+\* every note-on shown to the raw-event hook (velocity > 0; melodic channels with instruments 0..15 only in these songs) keys a
+\* chip channel on unless its synthesizer channel is switched off, and never when it is
+ChanMaskCall(L, sg, c) ==
+  { IF PortOfFileChannel(sg, c, L[j][5]) = 0 /\ L[j][5] \in c.chdis
+    THEN (IF RespKeyed(L, j + 1) THEN "masked-channel-note-keyed" ELSE "ok")
+    ELSE (IF RespKeyed(L, j + 1) THEN "ok" ELSE "unmasked-note-not-keyed")
+    : j \in { q \in DOMAIN L : L[q][1] = "e" /\ L[q][3] = 9 /\ L[q][6][2] > 0 } } \ {"ok"}
+ChanMaskFails(ev, sg, c) == UNION { ChanMaskCall(ev.calls[i][5], sg, c) : i \in DOMAIN ev.calls }
+
 PlayFullFails(ev, sg, c) == PFF(ev, sg, c, EntriesOf(ev.calls, "e"), EntriesOf(ev.calls, "h"), Gated(sg, sg.its, c.enabled, c.solo), LoopInfo(sg))
 
 \* timing of a play in "exact" mode: every entry is stamped with the reference time of some matching item (keys carry t)
@@ -386,10 +418,11 @@ StepPlayNormal(ev) ==
       fd == IF doRef THEN ModelVsReal(mrun, realLog, cfg.hooks) ELSE 0
       dr == fd # 0
       det == ToString(<<"loop", li, "n", cfg.loopN, "hooks", EntriesOf(ev.calls, "h"), "nLS", Count(EntriesOf(ev.calls, "h"), LAMBDA x : x[3] = 1), "times", [i \in DOMAIN D |-> D[i][2]]>>)
+      fm == IF ev.trunc = 0 THEN ChanMaskFails(ev, song, cfg) ELSE {}
       f8 == IF pos.moved /\ ~cfg.loopEn /\ ev.trunc = 0 /\ ev.steps = <<>> THEN PlayAfterSeekFails(ev, song, cfg, pos.t)
             ELSE IF afterSeek /\ cfg.loopEn /\ cfg.loopN >= 0 /\ ev.trunc = 0 /\ ev.steps = <<>> /\ "partial" \notin DOMAIN ev
                  THEN PlayAfterSeekLoopFails(ev, song, cfg, pos.t) ELSE {}
-  IN /\ fails' = AddFails(Tag("C07", { x \in f7 \cup fw : ~is9(x) }, ev, "") \cup Tag("C09", { x \in f7 : is9(x) }, ev, det)
+  IN /\ fails' = AddFails(Tag("C07", { x \in f7 \cup fw : ~is9(x) } \cup fm, ev, "") \cup Tag("C09", { x \in f7 : is9(x) }, ev, det)
                           \cup Tag("C08", f8, ev, ToString(<<"from", pos.t>>))
                           \* the pass count after a seek is a loop-count matter as well
                           \cup (IF cfg.loopEn THEN Tag("C09", f8, ev, ToString(<<"from", pos.t>>)) ELSE {}))
